@@ -489,6 +489,7 @@ pub fn generate(kind: &str, seed: u64, count: usize, out: &str) {
   let cfg = match kind {
     "stream_any" | "views" => Cfg::any(),
     "replace_hist" => Cfg { depth: 1, wild_maps: false, ..Cfg::any() },
+    "laws" | "concat_children" => Cfg { depth: 2, ..Cfg::ascii() },
     _ => Cfg::ascii(),
   };
   let mut g = Gen::new(seed, cfg);
@@ -505,7 +506,81 @@ pub fn generate(kind: &str, seed: u64, count: usize, out: &str) {
       Err(_) => continue,
     };
     let mut steps = vec![json!({"op": "build", "dst": 0, "tree": tree})];
+    let obs_all = |r: u64| -> Vec<Value> {
+      vec![obs("source", r), map(r, true), map(r, false)]
+    };
     match kind {
+      "laws" => {
+        // (flat, regrouped) or (x, wrapped x) pairs
+        let more = std::panic::catch_unwind(std::panic::AssertUnwindSafe(|| {
+          (g.tree(2, false), g.tree(2, false))
+        }));
+        let (b, c) = match more {
+          Ok(x) => x,
+          Err(_) => continue,
+        };
+        let a = steps[0]["tree"].clone();
+        let empty = json!({"k": "raw", "sub": "str", "b": []});
+        let cc = |ch: Vec<Value>| json!({"k": "concat", "mode": "boxed", "ch": ch});
+        let (lhs, rhs) = match g.rng.gen_range(0..14) {
+          0 => (cc(vec![a.clone(), b.clone(), c.clone()]),
+                json!({"k": "concat", "mode": "typed", "ch": [cc(vec![a, b]), cc(vec![c])]})),
+          1 => (cc(vec![a.clone(), b.clone(), c.clone()]), cc(vec![cc(vec![a, b]), c])),
+          2 => (cc(vec![a.clone(), b.clone(), c.clone()]), cc(vec![a, cc(vec![b, c])])),
+          3 => (cc(vec![a.clone(), b.clone(), c.clone()]),
+                json!({"k": "concat", "mode": "boxed", "ch": [a], "adds": [b, c]})),
+          4 => (cc(vec![a.clone(), b.clone(), c.clone()]),
+                json!({"k": "concat", "mode": "boxed", "ch": [a], "adds": [cc(vec![b, c])]})),
+          5 => (cc(vec![a.clone(), b.clone(), c.clone()]),
+                cc(vec![json!({"k": "box", "inner": cc(vec![a, b])}), c])),
+          6 => (a.clone(), cc(vec![a])),
+          7 => (a.clone(), cc(vec![a, empty])),
+          8 => (a.clone(), cc(vec![empty, a])),
+          9 => (a.clone(), json!({"k": "replace", "inner": a, "repls": []})),
+          10 => {
+            let n = g.rng.gen_range(1..3);
+            let repls: Vec<Value> = (0..n).map(|_| {
+              let p = g.rng.gen_range(0..6);
+              json!({"s": p, "e": p, "c": [], "n": [], "enf": g.rng.gen_range(0..3), "api": "replace_enf"})
+            }).collect();
+            (a.clone(), json!({"k": "replace", "inner": a, "repls": repls}))
+          }
+          11 => (a.clone(), json!({"k": "cached", "cid": 99, "inner": a})),
+          12 => (a.clone(), json!({"k": "box", "inner": a})),
+          _ => (cc(vec![a.clone(), b.clone()]),
+                cc(vec![json!({"k": "cached", "cid": 98, "inner": a}), json!({"k": "box", "inner": b})])),
+        };
+        steps = vec![json!({"op": "build", "dst": 0, "tree": lhs})];
+        steps.extend(obs_all(0));
+        steps.push(json!({"op": "build", "dst": 1, "tree": rhs}));
+        steps.extend(obs_all(1));
+        steps.push(json!({"op": "law", "law": "same", "a": 0, "b": 1}));
+      }
+      "concat_children" => {
+        let n = g.rng.gen_range(2..=4u64);
+        let mut trees = vec![steps[0]["tree"].clone()];
+        let mut failed = false;
+        for _ in 1..n {
+          match std::panic::catch_unwind(std::panic::AssertUnwindSafe(|| g.tree(2, false))) {
+            Ok(t) => trees.push(t),
+            Err(_) => failed = true,
+          }
+        }
+        if failed {
+          continue;
+        }
+        steps.clear();
+        for (i, t) in trees.into_iter().enumerate() {
+          let r = i as u64 + 1;
+          steps.push(json!({"op": "build", "dst": r, "tree": t}));
+          steps.extend(obs_all(r));
+        }
+        let ch: Vec<Value> = (1..=n).map(|r| json!({"k": "reg", "r": r})).collect();
+        steps.push(json!({"op": "build", "dst": 0, "tree": {"k": "concat", "mode": "boxed", "ch": ch}}));
+        steps.extend(obs_all(0));
+        steps.push(json!({"op": "law", "law": "concat_children", "r": 0,
+                          "children": (1..=n).collect::<Vec<u64>>()}));
+      }
       "replace_hist" => {
         // a ReplaceSource over the tree, mutated step by step with
         // observers in between
